@@ -264,8 +264,8 @@ Proof.
       assert (C1 : cget (a_conns (set_th (set_conn a c0 r0) Their t0 c0)) c = Some r).
       { cbn [set_th a_conns]. rewrite cget_set_other by auto. exact CG. }
       assert (AB : forall x, owns x n t c -> cget (a_conns x) c = Some r ->
-                owns (fst (set_conn x c0 (with_state r0 SAbandoned), @nil out)) n t c /\
-                cget (a_conns (fst (set_conn x c0 (with_state r0 SAbandoned), @nil out))) c = Some r).
+                owns (fst (set_conn x c0 (with_state r0 (match p with DX => SAbandoned | LC => SRequested end)), @nil out)) n t c /\
+                cget (a_conns (fst (set_conn x c0 (with_state r0 (match p with DX => SAbandoned | LC => SRequested end)), @nil out))) c = Some r).
       { intros x OX CX. cbn [fst]. split; [exact OX|]. rewrite cget_set_other by auto. exact CX. }
       destruct dco as [dc|]; [|apply AB; auto].
       destruct (vput v _ dc) as [s|] eqn:VP; [|apply AB; auto].
@@ -383,7 +383,7 @@ Proof.
       assert (C1 : cget (a_conns (set_th (set_conn a c0 r0) Their rid c0)) c = Some r).
       { cbn [set_th a_conns]. rewrite cget_set_other by auto. exact CG. }
       assert (AB : forall x, cget (a_conns x) c = Some r ->
-                cget (a_conns (fst (set_conn x c0 (with_state r0 SAbandoned), @nil out))) c = Some r).
+                cget (a_conns (fst (set_conn x c0 (with_state r0 (match p with DX => SAbandoned | LC => SRequested end)), @nil out))) c = Some r).
       { intros x CX. cbn [fst]. rewrite cget_set_other by auto. exact CX. }
       destruct dco as [dc|]; [|apply AB; auto].
       destruct (vput v _ dc) as [s|] eqn:VP; [|apply AB; auto].
